@@ -90,6 +90,7 @@ func New[T any](
 	tree.node.root = tree
 	tree.node.handlers = map[string]T{
 		http.MethodOptions: tree.optionsBuilder(tree.node),
+		methodNotAllowed:   tree.methodNotAllowedBuilder(tree.node), // 请求 * 或是空路径时，其它请求方法需要 405
 	}
 
 	if lock {
